@@ -7,14 +7,20 @@
 //! Exit codes: 0 property held on everything explored, 1 violation (with a
 //! `VIOLATION property=<id> replay=<path>` line), 2 harness error.
 
+mod alloc;
 mod catalog;
 mod chunksim;
 mod driver;
 mod engine;
+mod gridcodec;
+mod gridsim;
 mod rng;
 mod util;
 
 use engine::{Engine, Tier};
+
+#[global_allocator]
+static GLOBAL: alloc::Counting = alloc::Counting;
 
 /// Call `$body` with `$E` bound to the engine type named `$name`
 #[macro_export]
@@ -23,6 +29,18 @@ macro_rules! dispatch {
         match $name {
             "chunksim" => {
                 type $E = $crate::chunksim::ChunkSim;
+                $body
+            }
+            "gridsim-a" => {
+                type $E = $crate::gridsim::GridSimA;
+                $body
+            }
+            "gridsim-b" => {
+                type $E = $crate::gridsim::GridSimB;
+                $body
+            }
+            "gridsim-c" => {
+                type $E = $crate::gridsim::GridSimC;
                 $body
             }
             other => {
@@ -36,6 +54,7 @@ macro_rules! dispatch {
 pub fn engines_of(property: &str) -> Vec<&'static str> {
     match property {
         "C02" => vec!["chunksim"],
+        "C15" => vec!["gridsim-a", "gridsim-b", "gridsim-c"],
         _ => vec![],
     }
 }
@@ -73,6 +92,10 @@ fn main() {
         "replay" => {
             let quiet = args.iter().any(|a| a == "--quiet");
             std::process::exit(driver::replay_file(&args[2], !quiet));
+        }
+        "replay-exec" => {
+            let quiet = args.iter().any(|a| a == "--quiet");
+            std::process::exit(driver::replay_exec(&args[2], !quiet));
         }
         "run" => {
             let workers: usize = arg_value(&args, "--workers")
